@@ -1,5 +1,5 @@
 (* C16 — entry points limit what runs; results hold only requested outputs. *)
-From HG Require Import Base Engine Exec EngineProofs GraphDef Samples.
+From HG Require Import Base Engine Exec EngineProofs GraphDef Samples ScopeProofs.
 From stdpp Require Import gmap.
 
 (* With entry points configured only active nodes (entry nodes and their descendants) are
@@ -8,6 +8,13 @@ Theorem C16_active : forall g st n a,
   g_active g = Some a -> In n (ready_list g st) -> In (n_name n) a.
 Proof. exact ready_active. Qed.
 Print Assumptions C16_active.
+
+(* ... so, over a WHOLE run: every node call of every run - either runner, any executor, any budget, however the run ends
+   (completed, failed, paused, out of budget) - is a call of a node of the active set.  Nothing outside the scope ever runs. *)
+Theorem C16_run_scope : forall exec r fuel g pv a, g_active g = Some a ->
+  forall cs c, In cs (snd (execute exec r fuel g pv)) -> In c cs -> In (fst c) a.
+Proof. exact execute_only_active. Qed.
+Print Assumptions C16_run_scope.
 
 (* select="**": a returned key is a declared output of some node, holds the state's value,
    and is never an ordering sentinel. *)
